@@ -451,4 +451,281 @@ def fromUc (lines : List (List String)) (fasta : Option (List String)) : Except 
     let m ← fastaMap fl
     renameObs t m
 
+/-! ### The property, stated on inputs and observations only -/
+open Codec
+
+def gridIs (D : Grid) (n m : Nat) : Bool := D.length == n && D.all (fun r => r.length == m)
+
+def cellD (D : Grid) (i j : Nat) : Rat := (D.getD i []).getD j 0
+
+def allCells (n m : Nat) (p : Nat → Nat → Bool) : Bool :=
+  (List.range n).all fun i => (List.range m).all fun j => p i j
+
+def nodupKeys (d : Dict) : Bool := decide ((d.map (·.1)).Nodup)
+
+def matIs (M : Mat) : Bool := gridIs M.rows M.nR M.nC
+
+/-- a list of row dictionaries `{(0, j): v}`; some dictionary names the last column -/
+def rowDicts (ds : List Dict) (D : Grid) (n m : Nat) : Bool :=
+  ds.length == n &&
+  ds.all (fun d => nodupKeys d && d.all (fun e => e.1.1 == 0 && decide (e.1.2 < m))) &&
+  (allKeys ds).any (fun k => k.2 + 1 == m) &&
+  allCells n m (fun i j => ((ds.getD i []).lookup (0, j)).getD 0 == cellD D i j)
+
+/-- a list of column dictionaries `{(i, 0): v}` of a grid with at least two rows; some dictionary
+names the last row -/
+def colDicts (ds : List Dict) (D : Grid) (n m : Nat) : Bool :=
+  decide (2 ≤ n) && ds.length == m &&
+  ds.all (fun d => nodupKeys d && d.all (fun e => e.1.2 == 0 && decide (e.1.1 < n))) &&
+  (allKeys ds).any (fun k => k.1 + 1 == n) &&
+  allCells n m (fun i j => ((ds.getD j []).lookup (i, 0)).getD 0 == cellD D i j)
+
+/-- does the value (with the `input_is_dense` flag) describe the n×m grid `D` in one of the accepted
+forms?  Coordinate forms may repeat a coordinate (the values add up) and may name zeros. -/
+def encodes (d : Data) (isDense : Bool) (D : Grid) (n m : Nat) : Bool :=
+  gridIs D n m && decide (1 ≤ n) && decide (1 ≤ m) &&
+  match d with
+  | .vec v => n == 1 && D == [v]
+  | .arr nR nC rows => nR == n && nC == m && rows == D
+  | .listArr rows => rows == D
+  | .listSparse ms => ms.all (fun M => M.nC == m && matIs M) && ms.flatMap (·.rows) == D
+  | .sparse M => M.nR == n && M.nC == m && M.rows == D
+  | .dict kv =>
+    nodupKeys kv && inRange n m (dictTriples kv) &&
+    allCells n m (fun i j => (kv.lookup (i, j)).getD 0 == cellD D i j)
+  | .listList ls =>
+    if isDense then ls == D
+    else match triplesOf? ls with
+      | none => false
+      | some ts => inRange n m ts && allCells n m (fun i j => cellSum ts i j == cellD D i j)
+  | .listDict ds => rowDicts ds D n m || colDicts ds D n m
+  | .emptyList => false
+  | .unknown => false
+
+/-- forms that bring a shape of their own (the others take the one the ID counts announce) -/
+def carriesShape (d : Data) (isDense : Bool) : Bool :=
+  match d with
+  | .dict _ => false
+  | .listList _ => isDense
+  | _ => true
+
+/-- metadata that is not one mapping-or-null per ID -/
+def mdBad (md : Option (List MdEntry)) (ids : List Id) : Bool :=
+  match md with
+  | none => false
+  | some l => l.length != ids.length || l.any MdEntry.isOther
+
+/-- what the table must answer for the i-th ID of an axis given well-formed metadata -/
+def mdWant (md : Option (List MdEntry)) (i : Nat) : Option Md :=
+  match md with
+  | none => none
+  | some l => if l.all MdEntry.blank then none else (l[i]?).map MdEntry.toMd
+
+def distinct (ids : List Id) : Bool := decide ids.Nodup
+
+structure Case where
+  inp : Input
+  grid : Grid
+  n : Nat
+  m : Nat
+
+def isErr (res : Except Err (Table Rat)) (e : Err) : Bool :=
+  match res with
+  | .error e' => e' == e
+  | .ok _ => false
+
+def noTable (res : Except Err (Table Rat)) : Bool :=
+  match res with
+  | .error _ => true
+  | .ok _ => false
+
+/-- the grid and the IDs of a produced table, cell by cell through the IDs -/
+def tableIs (t : Table Rat) (obs samp : List Id) (D : Grid) : Bool :=
+  t.obs == obs && t.samp == samp && t.wfb &&
+  allCells obs.length samp.length (fun i j => t.cell? (obs.getD i "") (samp.getD j "") == some (cellD D i j))
+
+def mdIs (t : Table Rat) (inp : Input) : Bool :=
+  (List.range inp.obs.length).all (fun i => t.mdOf? .obs (inp.obs.getD i "") == mdWant inp.omd i) &&
+  (List.range inp.samp.length).all (fun j => t.mdOf? .samp (inp.samp.getD j "") == mdWant inp.smd j)
+
+/-- the constructor part of the property on one observation of the real constructor -/
+def holdsConstruct (c : Case) (res : Except Err (Table Rat)) : Verdict :=
+  let inp := c.inp
+  let own := carriesShape inp.data inp.inputIsDense
+  if !(encodes inp.data inp.inputIsDense c.grid c.n c.m &&
+       (own || (c.n == inp.obs.length && c.m == inp.samp.length))) then some "not-an-encoding"
+  else if inp.obs.isEmpty || inp.samp.isEmpty then none
+  else if !(distinct inp.obs && distinct inp.samp) then chk "reject_dup" (isErr res .tableException)
+  else if inp.obs.length != c.n || inp.samp.length != c.m then chk "reject_size" (isErr res .tableException)
+  else if mdBad inp.omd inp.obs || mdBad inp.smd inp.samp then chk "reject_md" (isErr res .tableException)
+  else match res with
+    | .error _ => some "forms_accept"
+    | .ok t => allV [chk "forms_grid" (tableIs t inp.obs inp.samp c.grid), chk "forms_md" (mdIs t inp)]
+
+/-- tables built from encodings of the same grid: all equal (`==` true for every pair) -/
+def holdsGroup (eqs : List Bool) : Verdict := chk "forms_equal" (eqs.all id)
+
+/-! #### adjacency -/
+
+def sortedB : List String → Bool
+  | a :: b :: r => decide (a < b) && sortedB (b :: r)
+  | _ => true
+
+def sameMembers (a b : List String) : Bool := a.all (b.contains ·) && b.all (a.contains ·)
+
+def adjValid (l : AdjLine) : Bool := l.fields.length == 3 && l.num.isSome
+
+def adjRecOf (l : AdjLine) : String × String × Rat :=
+  (l.fields.getD 0 "", l.fields.getD 1 "", l.num.getD 0)
+
+/-- the sum of the values of the records naming (o, s) -/
+def adjSum (recs : List (String × String × Rat)) (o s : String) : Rat :=
+  sumL ((recs.filter (fun r => r.1 == o && r.2.1 == s)).map (·.2.2))
+
+def holdsAdj (lines : List AdjLine) (res : Except Err (Table Rat)) : Verdict :=
+  let body := match lines with
+    | [] => []
+    | l0 :: rest => if l0.fields == adjHeader then rest else lines
+  if body.isEmpty || !body.all adjValid then chk "adjacency_reject" (noTable res)
+  else
+    let recs := body.map adjRecOf
+    match res with
+    | .error _ => some "adjacency_accept"
+    | .ok t => allV [
+        chk "adjacency_ids" (sortedB t.obs && sortedB t.samp && sameMembers t.obs (recs.map (·.1)) &&
+          sameMembers t.samp (recs.map (·.2.1)) && t.wfb),
+        chk "adjacency_cell" (t.obs.all fun o => t.samp.all fun s => t.cell? o s == some (adjSum recs o s))]
+
+/-! #### uc -/
+
+/-- `q = s ++ "_" ++ rest` with no underscore in `rest` -/
+def isSampleOf (q s : String) : Bool :=
+  let ql := q.toList
+  let sl := s.toList
+  sl.isPrefixOf ql &&
+  match ql.drop sl.length with
+  | '_' :: rest => !rest.contains '_'
+  | _ => false
+
+def isHS (r : UcRec) : Bool := r.ty == "H" || r.ty == "S"
+
+/-- number of H/S records whose (renamed) seed is `o` and whose query belongs to sample `s` -/
+def ucCount (label : String → Option String) (recs : List UcRec) (o s : String) : Rat :=
+  ((recs.filter (fun r => isHS r && label r.seed == some o && isSampleOf r.query s)).length : Nat)
+
+def holdsUc (lines : List (List String)) (fasta : Option (List String))
+    (res : Except Err (Table Rat)) : Verdict :=
+  match ucRecords lines with
+  | .error _ => chk "uc_reject" (noTable res)
+  | .ok recs =>
+    if recs.any (fun r => isHS r && !r.query.toList.contains '_') then chk "uc_reject" (noTable res)
+    else
+      let pairs : Option (Except Err (List (String × String))) := fasta.map fastaMap
+      match pairs with
+      | some (.error _) => chk "uc_reject" (noTable res)
+      | some (.ok []) => none
+      | _ =>
+        let label : String → Option String := match pairs with
+          | some (.ok ps) => fun x => ((ps.filter (fun p => p.1 == x)).getLast?).map (·.2)
+          | _ => fun x => some x
+        let seeds := (recs.map (·.seed)).eraseDups
+        let labels := seeds.filterMap label
+        if labels.length != seeds.length || !distinct labels then chk "uc_reject" (noTable res)
+        else match res with
+          | .error _ => some "uc_accept"
+          | .ok t => allV [
+              chk "uc_ids" (distinct t.obs && distinct t.samp && sameMembers t.obs labels &&
+                (recs.filter isHS).all (fun r => t.samp.any (isSampleOf r.query)) &&
+                t.samp.all (fun s => (recs.filter isHS).any (fun r => isSampleOf r.query s)) && t.wfb),
+              chk "uc_cell" (t.obs.all fun o => t.samp.all fun s => t.cell? o s == some (ucCount label recs o s))]
+
+/-! ### JSON glue -/
+
+def asGrid (j : Json) : R Grid := asList (asList asRat) j
+
+def asMat (j : Json) : R Mat := do
+  pure ⟨(← natF j "nR"), (← natF j "nC"), (← asGrid (← fld j "rows"))⟩
+
+def asEntry (j : Json) : R (Coord × Rat) := do
+  match (← asArr j) with
+  | [r, c, v] => pure (((← asNat r), (← asNat c)), (← asRat v))
+  | _ => .error "dict entry"
+
+def asData (j : Json) : R Data := do
+  match (← strF j "form") with
+  | "vec" => pure (.vec (← listF asRat j "v"))
+  | "arr" => pure (.arr (← natF j "nR") (← natF j "nC") (← asGrid (← fld j "rows")))
+  | "emptyList" => pure .emptyList
+  | "listArr" => pure (.listArr (← asGrid (← fld j "rows")))
+  | "listDict" => pure (.listDict (← listF (asList asEntry) j "ds"))
+  | "listSparse" => pure (.listSparse (← listF asMat j "ms"))
+  | "dict" => pure (.dict (← listF asEntry j "d"))
+  | "listList" => pure (.listList (← asGrid (← fld j "ls")))
+  | "sparse" => pure (.sparse (← asMat j))
+  | "unknown" => pure .unknown
+  | s => .error s!"bad form {s}"
+
+def asMdEntry (j : Json) : R MdEntry :=
+  match j with
+  | .null => pure .null
+  | .obj _ => do pure (.map (← asMd j))
+  | _ => pure .other
+
+def asInput (j : Json) : R Input := do
+  pure { data := (← asData (← fld j "data")), obs := (← listF asStr j "obs"), samp := (← listF asStr j "samp"),
+         omd := (← optF (asList asMdEntry) j "omd"), smd := (← optF (asList asMdEntry) j "smd"),
+         inputIsDense := (← boolFD j "dense" false) }
+
+def asResult (j : Json) : R (Except Err (Table Rat)) :=
+  match optFld j "ok" with
+  | some t => do pure (.ok (← asTable t))
+  | none => do pure (.error (asErr (← strF j "error")))
+
+def normTable (t : Table Rat) : Table Rat := { t with ttype := none }
+
+def resultToJson (r : Except Err (Table Rat)) : Json := exceptToJson tableToJson r
+
+def sameResult (a b : Except Err (Table Rat)) : Bool :=
+  match a, b with
+  | .ok x, .ok y => normTable x == normTable y
+  | .error e, .error f => e == f
+  | _, _ => false
+
+def asAdjLine (j : Json) : R AdjLine := do
+  pure ⟨(← listF asStr j "f"), (← optF asRat j "num")⟩
+
+def answer (v : Verdict) (model real : Except Err (Table Rat)) (mv : Verdict) : Json :=
+  Json.mkObj (verdictToJson v ++ [("agree", .bool (sameResult model real)), ("model", resultToJson model),
+    ("model_holds", .bool mv.isNone)])
+
+/-- requests:
+  {"op":"construct","input":{data,obs,samp,omd,smd,dense},"grid":[[…]],"n":…,"m":…,"result":{ok|error}}
+  {"op":"group","eqs":[bool…]}
+  {"op":"adjacency","lines":[{"f":[…],"num":rat|null}…],"result":…}
+  {"op":"uc","lines":[[fields…]…],"fasta":[lines…]|null,"result":…} -/
+def handle (req : Json) : R Json := do
+  match (← strF req "op") with
+  | "construct" =>
+    let inp ← asInput (← fld req "input")
+    let c : Case := ⟨inp, (← asGrid (← fld req "grid")), (← natF req "n"), (← natF req "m")⟩
+    let res ← asResult (← fld req "result")
+    let model := construct inp
+    pure (answer (holdsConstruct c res) model res (holdsConstruct c model))
+  | "group" =>
+    let eqs ← listF asBool req "eqs"
+    pure (Json.mkObj (verdictToJson (holdsGroup eqs) ++ [("agree", .bool true), ("model", .null),
+      ("model_holds", .bool true)]))
+  | "adjacency" =>
+    let lines ← listF asAdjLine req "lines"
+    let res ← asResult (← fld req "result")
+    let model := fromAdjacency lines
+    pure (answer (holdsAdj lines res) model res (holdsAdj lines model))
+  | "uc" =>
+    let lines ← listF (asList asStr) req "lines"
+    let fasta ← optF (asList asStr) req "fasta"
+    let res ← asResult (← fld req "result")
+    let model := fromUc lines fasta
+    pure (answer (holdsUc lines fasta res) model res (holdsUc lines fasta model))
+  | s => .error s!"bad op {s}"
+
 end Biom.C17
